@@ -368,6 +368,15 @@ impl CodeGenerator {
                     "DEBUG: detected transitive closure pattern with edge relation '{edge_relation}'"
                 );
             }
+            #[cfg(feature = "verif-hooks")]
+            crate::verif_hooks::record(crate::verif_hooks::Event::RecursiveStrategy {
+                rel: recursive_rel.to_string(),
+                strategy: crate::verif_hooks::Strategy::TransitiveClosure {
+                    edge: edge_relation.clone(),
+                },
+                base: base_inputs.clone(),
+                recursive: recursive_inputs.clone(),
+            });
             return self.execute_transitive_closure_optimized(&edge_relation, recursive_rel);
         }
 
@@ -383,6 +392,17 @@ impl CodeGenerator {
                     bound_col
                 );
             }
+            #[cfg(feature = "verif-hooks")]
+            crate::verif_hooks::record(crate::verif_hooks::Event::RecursiveStrategy {
+                rel: recursive_rel.to_string(),
+                strategy: crate::verif_hooks::Strategy::BoundTransitiveClosure {
+                    edge: edge_rel.clone(),
+                    magic: format!("magic_{recursive_rel}"),
+                    bound_col,
+                },
+                base: base_inputs.clone(),
+                recursive: recursive_inputs.clone(),
+            });
             return self.execute_bound_transitive_closure_optimized(
                 &edge_rel,
                 recursive_rel,
@@ -391,6 +411,13 @@ impl CodeGenerator {
             );
         }
 
+        #[cfg(feature = "verif-hooks")]
+        crate::verif_hooks::record(crate::verif_hooks::Event::RecursiveStrategy {
+            rel: recursive_rel.to_string(),
+            strategy: crate::verif_hooks::Strategy::General,
+            base: base_inputs.clone(),
+            recursive: recursive_inputs.clone(),
+        });
         // For complex patterns, use the general DD iterative approach.
         // For Min/Max semiring, we still use isize as the DD diff type but apply
         // early min/max aggregation inside the fixpoint loop to prune non-optimal
@@ -1279,6 +1306,8 @@ impl CodeGenerator {
 
         // For queries without joins, we can partition and process in parallel
         let num_workers = config.num_workers;
+        #[cfg(feature = "verif-hooks")]
+        crate::verif_hooks::record(crate::verif_hooks::Event::Partitioned { num_workers });
 
         // Partition input data across workers
         let partitioned_inputs: Vec<HashMap<String, Vec<Tuple>>> = (0..num_workers)
@@ -1331,6 +1360,12 @@ impl CodeGenerator {
             IRNode::FlatMap { input, .. } => Self::contains_join(input),
             IRNode::JoinFlatMap { .. } => true,
         }
+    }
+
+    /// Verification hook: forwarder to the private partition-safety guard.
+    #[cfg(feature = "verif-hooks")]
+    pub fn verif_contains_join(ir: &IRNode) -> bool {
+        Self::contains_join(ir)
     }
 
     /// Execute with the number of workers equal to CPU cores
